@@ -36,6 +36,7 @@ def plainKind : Kind → Bool
   | .wordEnd _ => true
   | .and es => !es.isEmpty
   | .matchFirst _ => true
+  | .or _ => true
   | .opt _ _ => true
   | .many _ none _ => true
   | .notAny _ => true
